@@ -2,7 +2,7 @@
 import random
 from propdefs import bfs
 
-N_DOCS = 21
+N_DOCS = 23
 GOOD_URLS = [1, 2, 3, 4, 16]
 ODD_URLS = [5, 6, 7, 8, 9, 10, 11, 12, 13, 14, 15]
 
